@@ -403,6 +403,9 @@ def evaluate(tree, env, sheet=None):
         return Err(tree[1])
     if k == 'ref':
         return env.cell(tree[1], sheet)
+    if k == 'pctref':
+        # a reference followed by the postfix percent operator: A1%
+        return binop('/', env.cell(tree[1], sheet), 100)
     if k == 'range':
         rng = tree[1]
         sh = sheet
@@ -453,6 +456,8 @@ def render(tree, ws=None):
         return tree[1]
     if k in ('ref', 'range'):
         return tree[1]
+    if k == 'pctref':
+        return tree[1] + '%'
     if k == 'par':
         return '(' + w() + render(tree[1], ws) + w() + ')'
     if k in ('neg', 'pos'):
